@@ -9,6 +9,8 @@ import (
 	"cosmossdk.io/math"
 	"github.com/chain4energy/c4e-chain/x/cfedistributor/types"
 	sdk "github.com/cosmos/cosmos-sdk/types"
+	authtypes "github.com/cosmos/cosmos-sdk/x/auth/types"
+	vestingtypes "github.com/cosmos/cosmos-sdk/x/auth/vesting/types"
 )
 
 // verifBeginBlock is x/cfedistributor/abci.go BeginBlocker (without telemetry / event emission error logging).
@@ -153,6 +155,7 @@ func Verif_C03_block_keeps_books() {
 		verif_fail("SetParams rejects parameters that Validate accepted")
 	}
 	verifC03Books(k, ctx, p)
+	verifC03RefusingAccounts(ctx, p)
 	supplyBefore := W.bank.supplyOf(dDenom)
 	verifBeginBlock(ctx, k)
 	verifC03Post(k, ctx)
@@ -305,4 +308,40 @@ func Verif_C03_step_lemma() {
 		}
 	}
 	verif_reach("step checked")
+}
+
+
+// Validation only checks that a base-account id is a bech32 address. The address may be one the bank refuses to pay (a blocked
+// address, e.g. a module account's) or, as a source, one whose coins are locked (a vesting account): both are chosen per path.
+var vC03Refusing = true
+
+func verifC03RefusingAccounts(ctx sdk.Context, p types.Params) {
+	if !vC03Refusing {
+		return
+	}
+	usesDst, usesSrc := false, false
+	for _, sd := range p.SubDistributors {
+		if sd.Destinations.PrimaryShare.Type == types.BaseAccount && sd.Destinations.PrimaryShare.Id == dBase2 {
+			usesDst = true
+		}
+		for _, sh := range sd.Destinations.Shares {
+			if sh.Destination.Type == types.BaseAccount && sh.Destination.Id == dBase2 {
+				usesDst = true
+			}
+		}
+		for _, src := range sd.Sources {
+			if src.Type == types.BaseAccount && src.Id == dBase1 {
+				usesSrc = true
+			}
+		}
+	}
+	if usesDst && verif_choice("baseDestinationBlocked", 2) == 1 {
+		W.bank.blocked = append(W.bank.blocked, verifAddrKey(verifAddr(dBase2)))
+	}
+	if usesSrc && verif_choice("baseSourceLocked", 2) == 1 {
+		base := authtypes.NewBaseAccountWithAddress(verifAddr(dBase1))
+		lockedAll, _ := sdk.NewIntFromString("4000000000000000000")
+		W.auth.SetAccount(ctx, vestingtypes.NewContinuousVestingAccountRaw(
+			vestingtypes.NewBaseVestingAccount(base, sdk.NewCoins(sdk.NewCoin(dDenom, lockedAll)), 4000000000), 3000000000))
+	}
 }
